@@ -89,6 +89,17 @@ def oracle_case(cid, c, out):
             if len(r) != 4:
                 return ["bad observation %r at op %d" % (obs[k], k)], st
             per_op.append((op, r[0], parse_synced(r[1]), int(r[2])))
+            if r[3] == "g4" and op.split(":")[0] in ("T", "P", "K", "G"):
+                # GetApplySnapStatus said ApplySuccess for the snapshot at source entry k: the recorded position
+                # must really cover that snapshot (the sender goes on behind it)
+                ff = op.split(":")
+                wl = [o2 for o2 in ops if o2.startswith("W:%s:" % ff[1])]
+                if wl:
+                    we = wl[0].split(":")[2].split(",")[int(ff[2]) - 1].split(".")
+                    got = parse_synced(r[1]).get("c" + ff[1])
+                    if got is None or got[0] < int(we[0]) or got[1] < int(we[1]):
+                        fails.append("GetApplySnapStatus answered ApplySuccess for snapshot (%s,%s) at %s but the recorded position is %s"
+                                     % (we[0], we[1], op, got))
             if kind == "M":
                 # three replicas fed the same committed entries (replica 2 restarted now and then) never differ
                 for n_, fo in enumerate(r[3].split("|")):
@@ -154,7 +165,7 @@ def oracle_case(cid, c, out):
                 fails.append("synced position of %s moved backwards at %s: %s -> %s" % (cl, op, v, s[cl]))
         if jl < prev_len:
             fails.append("applied data shrank at %s: %d -> %d" % (op, prev_len, jl))
-        if f[0] in ("T", "P", "K"):
+        if f[0] in ("T", "P", "K", "G"):
             st["snapop"] = st.get("snapop", 0) + 1
         frozen = ("D", "X", "S", "SB", "SF", "R", "Y", "T", "P", "K") if kind == "A" else (("S", "R", "R0", "T", "P") if kind == "M" else ("S", "R"))   # kind B: T/P/K are whole rpcs that apply
         if f[0] in frozen and (s != prev_s or jl != prev_len):
@@ -410,7 +421,7 @@ def run(ctx):
                             f.write(line if line.endswith("\n") else line + "\n")
             runs.append(dict(sub="corpus", replay=cf))
         if quick:
-            runs.append(dict(sub="fresh", n=260, nm=20, nm0=30, nb=8, ne=6, nes=1, engines="mem"))
+            runs.append(dict(sub="fresh", n=260, nm=21, nm0=30, nb=6, ne=6, nes=1, engines="mem"))
         else:
             runs.append(dict(sub="fresh", n=3600, nm=250, nm0=350, nb=100, ne=50, nes=8, engines="mem,pebble,rocksdb"))
             runs.append(dict(sub="fresh-pebble-live", n=0, nb=30, ne=15, engines="pebble"))
